@@ -181,12 +181,20 @@ def _as_set(x, what):
 
 
 def _must_raise_both(fn, what):
+    """order and size given together: the statement is silent; the library refuses the pair
+    (ValueError, documented for get_neighbors).  Refusing it or answering the -- consistent --
+    pair like size=2 alone are both accepted; any other answer is not an answer to the filter."""
     try:
-        fn(order=1, size=2)
-    except ValueError:
+        got = fn(order=1, size=2)
+    except (ValueError, TypeError):
         return
-    raise Violation("%s(order=1, size=2) must raise ValueError and returned normally" % what,
-                    key="no-rejection")
+    want = fn(size=2)
+    same = (sorted(map(repr, got)) == sorted(map(repr, want))
+            if isinstance(got, (list, tuple, set, frozenset)) and not isinstance(want, dict)
+            else got == want)
+    if not same:
+        raise Violation("%s(order=1, size=2) neither raises ValueError nor answers like size=2: "
+                        "%r vs %r" % (what, got, want), key="no-rejection")
 
 
 def _variants(h, name, module):
